@@ -239,7 +239,7 @@ func showVals17(v []any) string {
 func runC17(c *fw.Ctx) {
 	c.Cases("sort", c.N(3000, 2000000), false, func(i int, r *rng.R) {
 		kind := r.Intn(3)
-		n := []int{1, 2, 3, 4, 5, 8, 13, 21, 40, r.Range(1, 40)}[r.Intn(10)]
+		n := []int{1, 2, 3, 4, 5, 8, 13, 21, 40, r.Range(1, 40), r.Range(1, 40), 65, r.Range(41, 300)}[r.Intn(13)]
 		vals := c17Values(r, kind, n)
 		c17Sort(c, r, vals, kind)
 	})
@@ -279,7 +279,7 @@ func runC17(c *fw.Ctx) {
 		})
 	})
 	c.Cases("reverse", c.N(2000, 1000000), false, func(i int, r *rng.R) {
-		n := []int{0, 1, 2, 3, 4, 5, 6, 7, 16, 17, r.Range(0, 40)}[r.Intn(11)]
+		n := []int{0, 1, 2, 3, 4, 5, 6, 7, 16, 17, r.Range(0, 40), r.Range(0, 40), 64, 65, r.Range(41, 200)}[r.Intn(15)]
 		vals := c09Vals(r, n, []int{0, 0, 0, 1, 2, 3}[r.Intn(6)])
 		if n > 2 && r.Chance(1, 3) { // the same nested container at two positions
 			vals[n-1] = vals[0]
